@@ -447,7 +447,9 @@ func Execute(p *Program, opt *Options) *Outcome {
 					for _, v := range r.Incons {
 						add(VNondet, v)
 					}
-					if r.Budget {
+					if r.Deadlock {
+						add(VLiveness, r.Panic)
+					} else if r.Budget {
 						add(VBudget, fmt.Sprintf("operation still running after %d statements", opt.Budget))
 					} else if r.HasPanic && (def.PanicOK == nil || !def.PanicOK(x, op, r)) {
 						add(VPanic, r.Panic)
